@@ -278,7 +278,10 @@ class Run(ProducerContract):
         # ---- every event obtained from a producer is handed on itself, exactly once (C01), and the
         # library's own reaction to it (auto-pong, timers) happened BEFORE the application sees it (C14)
         if k in (5, 6, 7):
-            cur = ip.env.vars.get('event')
+            from pyvc.source import Roles
+            roles = Roles(WebsocketSession.run)
+            cur = ip.env.vars.get({5: roles.for_target('_regular()', 0), 6: roles.for_target('.feed('),
+                                   7: roles.for_target('_regular()', 1)}[k])
             st.oblige('yield%d(%s):hands-on-the-very-event-object-it-got' % (k, name), BoolVal(isinstance(cur, ORef) and cur == v), tags=('C01', 'C07'))
             seen = st.ghost.setdefault('handed_on', [])
             st.oblige('yield%d(%s):each-event-handed-on-once' % (k, name), BoolVal(isinstance(v, ORef) and v.oid not in seen), tags=('C01',))
